@@ -111,6 +111,8 @@ func (s *state) walk(node ast.Node) {
 		if _, err := s.wr.Write(node.Text); err != nil {
 			s.errorf("%s", err)
 		}
+	case *ast.SoyDocNode:
+		// a /** */ comment inside a template body prints nothing.
 	case *ast.MsgNode:
 		s.evalMsg(node)
 	case *ast.MsgHtmlTagNode:
